@@ -86,22 +86,28 @@ func Eval(ctx context.Context, executor Executor, roots []*Task, group *status.G
 		donec      = make(chan *Task, 8)
 		errc       = make(chan error)
 	)
+	vtrace("EvalStart", state, roots)
 	for {
 		for _, task := range roots {
 			state.Enqueue(task)
 		}
+		vtrace("EvalTop", state)
 		if state.Done() {
+			vtrace("EvalExit", state, state.Err())
 			return state.Err()
 		}
 		for !state.Done() && !state.Todo() {
+			vtrace("EvalIdle", state)
 			select {
 			case err := <-errc:
 				if err == nil {
 					panic("nil err")
 				}
+				vtrace("EvalExit", state, err)
 				return err
 			case task := <-donec:
 				state.Return(task)
+				vtrace("EvalReturn", state, task)
 				evalStatus.markDone(task)
 			}
 		}
@@ -126,6 +132,7 @@ func Eval(ctx context.Context, executor Executor, roots []*Task, group *status.G
 			} else {
 				status.Print("running in another invocation")
 			}
+			vtrace("EvalSubmit", state, task, runner, task.state)
 			go func(task *Task) {
 				var err error
 				for task.state < TaskRunning && err == nil {
@@ -135,6 +142,7 @@ func Eval(ctx context.Context, executor Executor, roots []*Task, group *status.G
 				for task.state < TaskOk && err == nil {
 					err = task.Wait(ctx)
 				}
+				vtrace("EvalWake", state, task, runner, task.state, err)
 				if runner {
 					if enableMaxConsecutiveLost {
 						// Only the runner bookkeeps consecutiveLost to avoid
@@ -157,6 +165,7 @@ func Eval(ctx context.Context, executor Executor, roots []*Task, group *status.G
 							}
 						}
 					}
+					vtrace("EvalBook", state, task, task.state, task.consecutiveLost)
 					d := time.Since(startRunTime)
 					executor.Eventer().Event("bigslice:taskComplete",
 						"name", task.Name.String(),
@@ -168,6 +177,7 @@ func Eval(ctx context.Context, executor Executor, roots []*Task, group *status.G
 				if err != nil {
 					errc <- err
 				} else {
+					vtrace("EvalPost", state, task)
 					donec <- task
 				}
 			}(task)
